@@ -26,7 +26,11 @@ CONFIGS = {
     "utf8": ("utf-8", "utf-8", "utf8", ["a", "b", " ", "\n", "你", "́"]),
     "wide": ("euc-jp", "euc-jp", "wide", ["a", "b", " ", "\n", "あ"]),
     "narrow": ("iso-8859-1", "iso-8859-1", "narrow", ["a", "b", " ", "\n", "é"]),
+    # a control character (no column of its own) among ASCII and wide characters; a double-byte encoding whose trail bytes reach into ASCII (GBK: 丂 = 81 40)
+    "utf8ctl": ("utf-8", "utf-8", "utf8", ["a", " ", "\t", "你"]),
+    "gbk": ("gbk", "gbk", "wide", ["a", " ", "\n", "丂"]),
 }
+SHORT = {"utf8ctl": 4, "gbk": 4}
 
 
 def strip0(s: str) -> str:
@@ -379,6 +383,8 @@ def run(tier, R):
     for cfgname, (_e, _c, _m, alpha) in CONFIGS.items():
         for form in ("str", "bytes"):
             LL = L if cfgname == "utf8" else L - 1
+            if cfgname in SHORT:
+                LL = SHORT[cfgname] if tier == "quick" else SHORT[cfgname] + 1
             tasks.append((cfgname, form, "", LL, widths))
             plen = 2 if tier == "quick" else 3
             for pre in itertools.product(alpha, repeat=plen):
